@@ -5,7 +5,7 @@ i=0
 for d in "$@"; do
   slot=$((i % PAR))
   T=/verif/target-seed$slot
-  [ -d $T ] || cp -a /verif/target $T
+  if [ ! -f "$d/quickcheck.txt" ]; then [ -d $T ] || cp -a /verif/target $T; fi
   ( VERIF_TARGET=$T VERIF_JOBS=8 /verif/tools/confirm_seed.sh $d > $d/confirm.log 2>&1 ) &
   i=$((i+1))
   if [ $((i % PAR)) -eq 0 ]; then wait; fi
